@@ -192,6 +192,20 @@ theorem c11_session_header_latest (dec : Dec P) (s : Option String) (rs : List (
     (run dec s rs).hdrs[k]? = some (hdr ((issued (rs.take k)).getLast?.or s)) :=
   run_hdr_latest dec s rs k hk
 
+/-- The method of the POSTed message does not matter: `initialize`, `ping`, a notification, an
+unknown method, the empty string — whatever methods the requests of a sequence carry, the same
+messages are delivered and every POST carries the same session header (in particular an
+`initialize` sent while a session id is known carries it like any other request). -/
+theorem c11_method_irrelevant (dec : Dec P) (s : Option String) (rs : List (ReqM × Behaviour)) (f : ReqM → String) :
+    (runM dec s (rs.map (fun p => ({ p.1 with method := f p.1 }, p.2)))).outs = (runM dec s rs).outs ∧
+    (runM dec s (rs.map (fun p => ({ p.1 with method := f p.1 }, p.2)))).hdrs = (runM dec s rs).hdrs := by
+  simp [runM, List.map_map, Function.comp_def]
+
+example :
+    (runM toyDecN (some "S") [(⟨some (.int 1), "initialize"⟩, .exc .other), (⟨none, ""⟩, .exc .other)]).hdrs
+      = [some "S", some "S"] := by
+  decide
+
 /-- Repeated failures leave nothing behind: after ANY number of failing requests (the same
 failure twice, three times, …, any mixture) the following requests are processed exactly as if
 nothing had happened before — no counter, no fail-fast state. -/
